@@ -1,10 +1,10 @@
 SPECIFICATION Spec
 CONSTANTS
- MaxLen = 6
+ MaxLen = 5
  NegLen = 2
  PSplit = 6
- MaxLenHigh = 6
- Exps <- ExpsSix
- Precs <- PrecsSix
+ MaxLenHigh = 5
+ Exps <- ExpsFull
+ Precs = {2}
 INVARIANT Lemmas
 CHECK_DEADLOCK FALSE
